@@ -1,0 +1,37 @@
+// Verification seam. Compiled only with `--cfg edp_verif`.
+//
+// The distribution-header writer collects atoms in a `HashSet` with a randomly
+// keyed hasher, so the position of each atom in the header differs from run to
+// run. Under the guard the order becomes a function of a per-thread salt that a
+// deterministic simulator sets: canonical order first, then a seeded shuffle.
+
+use crate::types::Atom;
+use std::cell::Cell;
+
+thread_local! {
+    static ATOM_ORDER_SALT: Cell<u64> = const { Cell::new(0) };
+}
+
+pub fn set_atom_order_salt(salt: u64) {
+    ATOM_ORDER_SALT.with(|s| s.set(salt));
+}
+
+fn next(state: &mut u64) -> u64 {
+    *state = state.wrapping_add(0x9e37_79b9_7f4a_7c15);
+    let mut z = *state;
+    z = (z ^ (z >> 30)).wrapping_mul(0xbf58_476d_1ce4_e5b9);
+    z = (z ^ (z >> 27)).wrapping_mul(0x94d0_49bb_1331_11eb);
+    z ^ (z >> 31)
+}
+
+pub fn order_atoms(mut atoms: Vec<&Atom>) -> Vec<&Atom> {
+    atoms.sort_by(|a, b| a.name.as_bytes().cmp(b.name.as_bytes()));
+    let mut state = ATOM_ORDER_SALT.with(|s| s.get());
+    if state != 0 {
+        for i in (1..atoms.len()).rev() {
+            let j = (next(&mut state) % (i as u64 + 1)) as usize;
+            atoms.swap(i, j);
+        }
+    }
+    atoms
+}
